@@ -240,6 +240,34 @@ class World:
                 return self.P.cls(n.id)
         return None
 
+    def _missing_hook_strings(self, ecls):
+        """String constants a lenient `_missing_` hook can react to: those in its body and those in the module-level
+        tables (and class attributes) its body names."""
+        out = set()
+        seen = set()
+        for ci in ecls.mro():
+            mf = ci.methods.get("_missing_") if hasattr(ci, "methods") else None
+            if mf is None:
+                continue
+            work = [mf.node]
+            mod = self.P.modules.get(mf.module)
+            while work:
+                node = work.pop()
+                for n in ast.walk(node):
+                    if isinstance(n, ast.Constant) and isinstance(n.value, str) and 0 < len(n.value) <= 40:
+                        out.add(n.value)
+                    elif isinstance(n, ast.Name) and isinstance(n.ctx, ast.Load) and mod is not None and n.id not in seen:
+                        seen.add(n.id)
+                        b = mod.ns.get(n.id)
+                        if b is not None and b[0] == "var" and isinstance(b[1], ast.AST):
+                            work.append(b[1])
+                    elif isinstance(n, ast.Attribute) and isinstance(n.value, ast.Name) and n.value.id in ("cls", "self") and n.attr in getattr(ci, "attrs", {}) \
+                            and ("attr", n.attr) not in seen:
+                        seen.add(("attr", n.attr))
+                        if isinstance(ci.attrs[n.attr], ast.AST):
+                            work.append(ci.attrs[n.attr])
+        return out
+
     def arg_choices(self, f, *, with_invalid=True, point_variants=("none", "point")):
         """For every parameter of `f` (after self) the list of abstract values to try."""
         a = f.node.args
@@ -255,6 +283,8 @@ class World:
                 vals = [Member(ecls.name, n) for n in ecls.enum_members()]
                 if with_invalid and "str" in txt:
                     vals.append(Const("<not-a-member>"))
+                if "str" in txt:
+                    # (valid inputs, so they are tried whether or not invalid arguments are)
                     # a lenient lookup hook (_missing_) makes other spellings valid: try a differently cased and a
                     # padded spelling of every member (a guard that compares the raw argument no longer sees them)
                     if ecls.lookup("_missing_") is not None:
@@ -263,6 +293,11 @@ class World:
                                 for alt in (val.upper() if val.upper() != val else val.lower(), f" {val}"):
                                     if alt != val:
                                         vals.append(Const(alt))
+                        # ... and the spellings its tables name (synonym dictionaries read by the hook)
+                        member_values = {v for v in ecls.enum_members().values() if isinstance(v, str)}
+                        for alt in sorted(self._missing_hook_strings(ecls) - member_values):
+                            if Const(alt) not in vals:
+                                vals.append(Const(alt))
                 out.append((p.arg, vals))
             elif txt == "bool":
                 out.append((p.arg, [FALSE, TRUE]))
